@@ -171,7 +171,7 @@ func (m *enumerator) dfs(c cfg, optb map[*OptDecl][]string, argb []struct {
 func Bindings(p *Prog, argv []string) (accept bool, keys []string, unclaimed bool) {
 	m := &enumerator{p: p, n: BuildNFA(p, false), argv: argv, res: &refResult{bindings: map[string]bool{}}, onpath: map[string]bool{}}
 	m.dfs(cfg{q: m.n.Start}, map[*OptDecl][]string{}, nil)
-	if m.steps > maxEnumSteps {
+	if m.steps > maxEnumSteps || zone4Token(p, argv) {
 		m.res.unclaimed = true
 	}
 	for k := range m.res.bindings {
